@@ -859,6 +859,49 @@ def r35_chunk_const(text, base_line=0):
     return re.sub(r"\b_CHUNKS\b", "chunk_size()", text), log
 
 
+def r40_for_mut_ref(text, base_line=0):
+    """R40: `for X in &mut E {` -> `for __i in 0..E.len() { let X = &mut E[__i];`"""
+    log = []
+    pat = re.compile(r"for\s+(\w+)\s+in\s+&mut\s+([\w\.]+)\s*\{")
+    while True:
+        m = pat.search(text)
+        if not m:
+            return text, log
+        x, e = m.groups()
+        new = "for __i in 0..%s.len() { let %s = &mut %s[__i];" % (e, x, e)
+        log.append("R40 line %d: `%s` -> `%s`" % (base_line + text.count("\n", 0, m.start()), m.group(0), new))
+        text = text[:m.start()] + new + text[m.end():]
+
+
+def r41_iter_mut_for_each(text, base_line=0):
+    """R41: `E.iter_mut().for_each(|X| BODY);` -> `for __i in 0..E.len() { let X = &mut E[__i]; BODY; }`"""
+    log = []
+    pat = re.compile(r"([\w\.]+)\.iter_mut\(\)\.for_each\(\|(\w+)\|\s*")
+    while True:
+        m = pat.search(text)
+        if not m:
+            return text, log
+        e, x = m.groups()
+        # BODY runs to the `)` that closes `for_each(`
+        k, depth = m.end(), 0
+        while k < len(text):
+            ch = text[k]
+            if ch in "([{":
+                depth += 1
+            elif ch in ")]}":
+                if depth == 0:
+                    break
+                depth -= 1
+            k += 1
+        tail = re.match(r"\)\s*;", text[k:])
+        if not tail:
+            raise LostAnchor("R41: `);` does not follow the for_each closure")
+        body = text[m.end():k]
+        new = "for __i in 0..%s.len() { let %s = &mut %s[__i]; %s; }" % (e, x, e, body)
+        log.append("R41 line %d: `%s.iter_mut().for_each(|%s| ..);` -> `for __i in 0..%s.len() { let %s = &mut %s[__i]; ..; }`" % (base_line + text.count("\n", 0, m.start()), e, x, e, x, e))
+        text = text[:m.start()] + new + text[k + tail.end():]
+
+
 def r21_to_owned(text, base_line=0):
     """R21: `.to_owned()` -> `.clone()` (identical for a `Clone` type; vstd specifies `Clone`)"""
     log = []
@@ -876,9 +919,9 @@ REWRITES = {
     "R1": r1_compound_assign, "R2": r2_unary_minus, "R3": r3_scale_call, "R6": r6_for_with_continue,
     "R7": r7_isqrt, "R8": r8_step_by, "R9": r9_consts, "R10": r10_tail_continue,
     "R12": r12_enumerate, "R15": r15_iter, "R16": r16_map_index, "R17": r17_for_in_ref_vec, "R18": r18_assert_eq_shape,
-    "R19": r19_last_unwrap, "R20": r20_range_enumerate, "R21": r21_to_owned, "R22": r22_map_collect, "R23": r23_slice_iter, "R24": r24_name_wildcard_loop, "R25": r25_par_map_collect, "R26": r26_zip_iter_mut, "R27": r27_sum_f32, "R28": r28_as_f32, "R29": r29_consuming_for, "R30": r30_rev_take_collect, "R31": r31_zip_map_sum, "R32": r32_chunked_zip_flat_map, "R33": r33_unzip, "R34": r34_chunked_flat_map, "R35": r35_chunk_const, "R13": r13_panic_allowed, "R14": r14_panic_forbidden,
+    "R19": r19_last_unwrap, "R20": r20_range_enumerate, "R21": r21_to_owned, "R22": r22_map_collect, "R23": r23_slice_iter, "R24": r24_name_wildcard_loop, "R25": r25_par_map_collect, "R26": r26_zip_iter_mut, "R27": r27_sum_f32, "R28": r28_as_f32, "R29": r29_consuming_for, "R30": r30_rev_take_collect, "R31": r31_zip_map_sum, "R32": r32_chunked_zip_flat_map, "R33": r33_unzip, "R34": r34_chunked_flat_map, "R35": r35_chunk_const, "R40": r40_for_mut_ref, "R41": r41_iter_mut_for_each, "R13": r13_panic_allowed, "R14": r14_panic_forbidden,
 }
-ORDER = ["R18", "R13", "R14", "R16", "R31", "R32", "R34", "R35", "R33", "R25", "R26", "R29", "R30", "R27", "R28", "R20", "R22", "R23", "R24", "R12", "R15", "R17", "R19", "R21", "R10", "R8", "R6", "R9", "R7", "R3", "R1", "R2"]
+ORDER = ["R18", "R13", "R14", "R16", "R40", "R41", "R31", "R32", "R34", "R35", "R33", "R25", "R26", "R29", "R30", "R27", "R28", "R20", "R22", "R23", "R24", "R12", "R15", "R17", "R19", "R21", "R10", "R8", "R6", "R9", "R7", "R3", "R1", "R2"]
 
 
 def apply_rewrites(text, names, base_line):
